@@ -53,7 +53,7 @@ def jobs(tier):
             base = ["-DVD_R_MAX=3", "-DVD_F_MAX=2"] + C15.shape(r, c, f, max(r, c) + slack, r * c + slack, f + slack, z)
             # in place: from-type and to-type fully symbolic
             d = base + ["-DH_INPLACE"]
-            J.append(V.Job("convert.%s_inplace" % C15.tag(base), H, "h_convert", SRCS + [stubs], defines=d, unwind=6,
+            J.append(V.Job("convert.%s_inplace" % C15.tag(base), H, "h_convert", SRCS + [stubs], defines=d, unwind=11,
                            union_struct=True, kind="bounded", canary=((r, c, f) == (2, 2, 2)), functions=fns,
                            bound="in place, %dx%dx%d; from- and to-type symbolic over all 11x11 (+invalid); values symbolic" % (r, c, f),
                            timeout=300, include_dirs=[os.path.join(V.VERIF, "harness", "vnadata")]))
